@@ -205,7 +205,7 @@ impl CallingConvention {
                     preserved_registers,
                     trashed_registers,
                     stack_argument_offset: 0,
-                    stack_argument_length: 4,
+                    stack_argument_length: 8,
                     return_address_type: return_type,
                     return_register: il::scalar("x0", 64),
                 }
